@@ -61,6 +61,10 @@ def s_token(cls, w, h):
     if cls == "left":
         t = product.str_text(h, max(1, w - 2))
         return (" " * min(2, w - len(t)) + t).encode().ljust(w)  # leading blanks: padding, stripped
+    if cls == "tiny" and w >= 2:
+        return b"z".ljust(w, b"\0")  # NUL padded (tape-derived files): padding, stripped
+    if cls == "negzero" and w >= 8:
+        return (b"-0.0" + b"  ").ljust(w, b"\0")  # blanks, then NULs
     if cls in cands:
         return cands[cls][:w]
     return product.str_text(h, w)
